@@ -70,13 +70,14 @@ package utils
 //@   loop range subs
 //@     invariant OPEN3: [C17] forall ch int :: (ch in subs) ==> ch != nil && !closed(ch)
 
+//@ structinv (b *Broker) b.ctx != nil
 //@ func (*Broker).Unsubscribe
 //@   tags C17
-//@   requires b != nil && b.ctx != nil
+//@   requires b != nil
 //@   modifies nothing
 //@   site block * EXITS: [C17] requires waits(ctxdone(b.ctx))
 //@ func (*Broker).Publish
 //@   tags C17
-//@   requires b != nil && b.ctx != nil
+//@   requires b != nil
 //@   modifies nothing
 //@   site block * EXITS: [C17] requires waits(ctxdone(b.ctx))
